@@ -16,7 +16,7 @@ end
 def render : Result → String
   | .fault => "fault"
   | r => if r.isNull then "null" else match r with
-    | .node n => dumpNode n
+    | .node n => (if n.parent == none then "R+" else "R!") ++ dumpNode n
     | _ => "null"
 
 /-- parse the preorder token stream; attributes go through `mapSet` like `setAttr` -/
@@ -65,7 +65,7 @@ def deepDoc (n : Nat) (kind : String) : Bytes :=
 def deepShow (r : Result) : String :=
   if r.isNull then "deep null" else match r with
   | .node n =>
-    let (d, k, b) := measure [(n, 1)] 0 0 0
+    let (d, k, b) := measure [(n, 1)] 0 0 (if n.parent == none then 0 else 1)
     s!"deep depth={d} nodes={k} badparents={b}"
   | .fault => "fault"
   | .null => "deep null"
